@@ -1,10 +1,140 @@
 import VOPyVerif.Drv.Proto
-/-! Driver front end for property C14 (line protocol → executable model). -/
+import VOPyVerif.Model.RegionUpdate
+/-! Driver front end for property C14 (confidence-region updates).
+
+* `rect <tau> <lower> <upper> <iter> <mean> <std> <scale>` — one `Rect.update` on the rectangle
+  `(lower, upper, intersect_iteratively = iter)` with prediction `(mean, std)` (covariance only needs to
+  be square here) and one scale row.  Answer `ok <lower'> <upper'> <b>` where `b = 1` iff the
+  intersection test is borderline at slack `tau` (it flips when moved by `±tau`), or `ValueError`.
+* `seq <R|E> <m> <n0> <tau> <ops>` — replays a sequence of calls on a design space of `n0` fresh
+  regions (`R` rectangles / `E` ellipsoids) of dimension `m` with `Region.update` (the function the
+  theorems are about).  `<ops>` is `@`-separated:
+  * `U:<scale>:<idx>:<means>:<stds>:<covs>` — `update(model, scale, idx)`, where the model's prediction
+    on the full design matrix is `means` (matrix, row `i` = design `i`), `stds` (matrix,
+    `sqrt(diag cov)` per design) and `covs` (`|`-separated matrices); `<scale>` is `s=<q>` (0-d),
+    `v=<vec>` (1-D), `m=<mat>` (2-D) or `o` (more than two axes);
+  * `R:<i>:<k>` — `generate_child_designs(i)` creating `k` children;
+  * `I:<b>:<idx>` — set `intersect_iteratively = b` on the listed regions.
+  Answer: one token per op, separated by spaces: `<status>#<fuzzy>#<state>` with `<status>` `ok` or the
+  exception name, `<fuzzy>` one bit per region (1 = some intersection decision that shaped the
+  region's current value was borderline at slack `tau`), and `<state>` = `<lowers>#<uppers>` (matrices,
+  one row per region) for rectangles, `<centers>#<alphas>#<sigmas>` for ellipsoids.
+-/
 namespace VOPy.Drv.C14
-open VOPy VOPy.Proto
+open VOPy VOPy.Proto VOPy.Region
+
+def fmtMats (l : List Mat) : String := fmtList "|" fmtMat l
+
+def parseScale (s : String) : Option Scale :=
+  match s.splitOn "=" with
+  | ["o"] => some .other
+  | ["s", q] => (parseRat q).map .scalar
+  | ["v", v] => (parseVec v).map .vec
+  | ["m", m] => (parseMat m).map .mat
+  | _ => none
+
+inductive Cmd where
+  | upd (sc : Scale) (idx : List Nat) (table : List Pred)
+  | refine (i k : Nat)
+  | setIter (b : Bool) (idx : List Nat)
+
+def mkTable : List Vec → List Vec → List Mat → Option (List Pred)
+  | [], [], [] => some []
+  | m :: ms, s :: ss, c :: cs => (mkTable ms ss cs).map ({ mean := m, cov := c, std := s } :: ·)
+  | _, _, _ => none
+
+def parseCmd (s : String) : Option Cmd :=
+  match s.splitOn ":" with
+  | ["U", sc, idx, means, stds, covs] => do
+    let sc ← parseScale sc
+    let idx ← parseNats idx
+    let ms ← parseMat means
+    let ss ← parseMat stds
+    let cs ← parseMats covs
+    let t ← mkTable ms ss cs
+    pure (.upd sc idx t)
+  | ["R", i, k] => do
+    let i ← i.toNat?
+    let k ← k.toNat?
+    pure (.refine i k)
+  | ["I", b, idx] => do
+    let b ← parseBool b
+    let idx ← parseNats idx
+    pure (.setIter b idx)
+  | _ => none
+
+def fmtState (regs : List Region) : String :=
+  let rects := regs.filterMap (fun r => match r with | .rect q => some q | _ => none)
+  let ells := regs.filterMap (fun r => match r with | .ell e => some e | _ => none)
+  if ells.isEmpty then fmtMat (rects.map (·.lower)) ++ "#" ++ fmtMat (rects.map (·.upper))
+  else fmtMat (ells.map (·.center)) ++ "#" ++ fmtVec (ells.map (·.alpha)) ++ "#" ++ fmtMats (ells.map (·.sigma))
+
+/-- stepping pass that only tracks which regions were shaped by a borderline decision -/
+def fuzzyLoop (τ : Rat) : List Region → List Bool → List (Nat × Pred × Vec) → List Bool
+  | _, fz, [] => fz
+  | regs, fz, (i, p, s) :: rest =>
+    match regs[i]? with
+    | none => fz
+    | some r =>
+      match r.update p s with
+      | .error _ => fz
+      | .ok r' =>
+        let fz' := match r, bounds p.mean p.std s with
+          | .rect q, some (L, U) =>
+            if q.iter then (if borderline τ q.lower q.upper L U then fz.set i true else fz)
+            else fz.set i false
+          | _, _ => fz
+        fuzzyLoop τ (regs.set i r') fz' rest
+
+def fuzzyUpd (τ : Rat) (regs : List Region) (fz : List Bool) (table : List Pred) (sc : Scale)
+    (idx : List Nat) : List Bool :=
+  match scaleRows sc idx.length, lookupAll table idx with
+  | some rows, some preds => fuzzyLoop τ regs fz (idx.zip (preds.zip rows))
+  | _, _ => fz
+
+def fmtTok (st : String) (fz : List Bool) (regs : List Region) : String :=
+  st ++ "#" ++ fmtBools fz ++ "#" ++ fmtState regs
+
+def replay (τ : Rat) : List Region → List Bool → List Cmd → List String
+  | _, _, [] => []
+  | regs, fz, .upd sc idx table :: rest =>
+    let r := Region.update regs table sc idx
+    let fz' := fuzzyUpd τ regs fz table sc idx
+    fmtTok (match r.2 with | none => "ok" | some e => e.name) fz' r.1 :: replay τ r.1 fz' rest
+  | regs, fz, .refine i k :: rest =>
+    match Region.refine regs i k with
+    | none => ["bad-refine"]
+    | some regs' =>
+      let fz' := fz ++ List.replicate k (fz.getD i false)
+      fmtTok "ok" fz' regs' :: replay τ regs' fz' rest
+  | regs, fz, .setIter b idx :: rest =>
+    let regs' := Region.setIter regs idx b
+    fmtTok "ok" fz regs' :: replay τ regs' fz rest
 
 def handle (args : List String) : String :=
   match args with
+  | ["rect", tau, lo, up, it, mean, std, scale] =>
+    match parseRat tau, parseVec lo, parseVec up, parseBool it, parseVec mean, parseVec std, parseVec scale with
+    | some τ, some lo, some up, some it, some mean, some std, some scale =>
+      let r : Rect := { lower := lo, upper := up, iter := it }
+      let p : Pred := { mean := mean, cov := identMat std.length, std := std }
+      match r.update p scale with
+      | .error e => e.name
+      | .ok r' =>
+        let b := match bounds mean std scale with
+          | some (L, U) => it && borderline τ lo up L U
+          | none => false
+        "ok " ++ fmtVec r'.lower ++ " " ++ fmtVec r'.upper ++ " " ++ fmtBool b
+    | _, _, _, _, _, _, _ => bad
+  | ["seq", kind, m, n0, tau, ops] =>
+    match m.toNat?, n0.toNat?, parseRat tau, parseList "@" parseCmd ops with
+    | some m, some n0, some τ, some cmds =>
+      let r0 : Option Region := if kind = "R" then some (.rect (Rect.init m))
+        else if kind = "E" then some (.ell (Ell.init m)) else none
+      match r0 with
+      | none => bad
+      | some r0 => " ".intercalate (replay τ (List.replicate n0 r0) (List.replicate n0 false) cmds)
+    | _, _, _, _ => bad
   | _ => bad
 
 end VOPy.Drv.C14
